@@ -80,9 +80,7 @@ func NewWriterLevel(w io.Writer, level, wc int) (*Writer, error) {
 	go func() {
 		defer bg.wg.Done()
 		for qw := range bg.queue {
-			if !writeOK(bg, <-qw.flush) {
-				break
-			}
+			writeOK(bg, <-qw.flush)
 		}
 	}()
 
@@ -90,10 +88,18 @@ func NewWriterLevel(w io.Writer, level, wc int) (*Writer, error) {
 }
 
 func writeOK(bg *Writer, c *compressor) bool {
-	defer func() { bg.waiting <- c }()
+	defer func() {
+		bg.qwg.Done()
+		bg.waiting <- c
+	}()
 
 	if c.err != nil {
 		bg.setErr(c.err)
+		return false
+	}
+	if bg.Error() != nil {
+		// A previous block failed; do not write past the failure.
+		c.buf.Reset()
 		return false
 	}
 	if c.buf.Len() == 0 {
@@ -101,7 +107,6 @@ func writeOK(bg *Writer, c *compressor) bool {
 	}
 
 	_, err := io.Copy(bg.w, &c.buf)
-	bg.qwg.Done()
 	if err != nil {
 		bg.setErr(err)
 		return false
